@@ -235,20 +235,48 @@ def full_extent(ctx, rule="R15.7"):
 
 
 def zero_init(ctx, rule="R15.8"):
+    """Every array a kernel accumulates into (`+=` on a declared memoryview local) is allocated in this very call by its own np.zeros:
+    not np.empty, not a buffer kept at module level between calls (history dependence, results handed out earlier are overwritten), not one
+    allocation shared by two outputs (`a = b = np.zeros(n)`)."""
     n = 0
     for rel in KERNEL_FILES:
         mod = ctx.prog.mod(rel)
         for name, fn in sorted(mod.functions.items()):
             site = "%s::%s" % (rel, name)
+            info = mod.pyx.functions.get(name) or {}
+            mv_locals = {k for k, t in info.get("locals", {}).items() if t and "[" in t}
             alloc = {}
             for st in ast.walk(fn):
-                if isinstance(st, ast.Assign) and len(st.targets) == 1 and isinstance(st.targets[0], ast.Name) and isinstance(st.value, ast.Call) and ast.unparse(st.value.func) in ("np.zeros", "np.empty", "np.ones", "np.full"):
-                    alloc[st.targets[0].id] = ast.unparse(st.value.func)
-            acc = sorted({PR.base_name(a.target) for a in ast.walk(fn) if isinstance(a, ast.AugAssign) and isinstance(a.target, ast.Subscript) and PR.base_name(a.target) in alloc})
-            for a in acc:
+                if isinstance(st, ast.Assign) and all(isinstance(t, ast.Name) for t in st.targets) and isinstance(st.value, ast.Call) and ast.unparse(st.value.func) in ("np.zeros", "np.empty", "np.ones", "np.full"):
+                    if len(st.targets) > 1:
+                        n += 1
+                        ctx.violation(rule, site, "one allocation is bound to several arrays (%s): they share their memory" % ", ".join(t.id for t in st.targets), "shared-alloc:" + ",".join(sorted(t.id for t in st.targets)))
+                    for t in st.targets:
+                        alloc[t.id] = ast.unparse(st.value.func)
+            summed = sorted({PR.base_name(a.target) for a in ast.walk(fn) if isinstance(a, ast.AugAssign) and isinstance(a.op, (ast.Add, ast.Sub)) and isinstance(a.target, ast.Subscript)
+                             and PR.base_name(a.target) in mv_locals})
+            for a in summed:
                 n += 1
-                ctx.check(alloc[a] == "np.zeros", rule, site, "`%s` is accumulated into and allocated with %s" % (a, alloc[a]), "alloc:%s:%s" % (a, alloc[a]))
+                if a not in alloc:
+                    defs = [ast.unparse(st.value)[:50] for st in ast.walk(fn) if isinstance(st, ast.Assign) and any(isinstance(t, ast.Name) and t.id == a for t in st.targets)]
+                    ctx.violation(rule, site, "`%s` is accumulated into but not allocated in this call (it is %s): the sums start from whatever an earlier call left there" % (a, defs or "never assigned"), "alloc:%s:foreign" % a)
+                else:
+                    ctx.check(alloc[a] == "np.zeros", rule, site, "`%s` is accumulated into and allocated with %s" % (a, alloc[a]), "alloc:%s:%s" % (a, alloc[a]))
     ctx.floor(rule, "locally allocated accumulation arrays", n, 8)
+
+
+def strided_views(ctx, rule="R15.17"):
+    """Array parameters are declared as strided memoryviews (`double[:, :]`): a contiguity requirement (`::1`) that the Python side does not
+    establish (scipy's inverse, sliced positions) turns valid calls into a ValueError in one kernel and not in its sibling."""
+    n = 0
+    for rel in KERNEL_FILES:
+        mod = ctx.prog.mod(rel)
+        for name, info in sorted(mod.pyx.functions.items()):
+            for p_ in info.get("params", []):
+                if p_.get("type") and "[" in p_["type"]:
+                    n += 1
+                    ctx.check("::" not in p_["type"], rule, "%s::%s" % (rel, name), "parameter %s is declared `%s`" % (p_["name"], p_["type"]), "contiguity:%s" % p_["name"])
+    ctx.floor(rule, "array parameters of the kernels", n, 30)
 
 
 def _is_int(e, types):
@@ -458,6 +486,7 @@ def build_independent(ctx, rule="R15.15"):
 
 
 def run(ctx):
+    strided_views(ctx)
     accumulator_complete(ctx)
     build_independent(ctx)
     mode_terms(ctx)
